@@ -15,7 +15,7 @@ from checks import c15
 
 PROP = 'C16'
 PROFILE = S.profile(n_items=(1, 12), far=False, big_gaps=False, w_group=0, n_consts=(0, 3), n_labels=(1, 4), w_labelval=3, p_const_operand=0.3,
-                    p_alias=0.2, w_cinsn=2)
+                    p_alias=0.2, w_cinsn=5)
 N = {'quick': 192, 'thorough': 20000}
 FRESH = os.path.join(env.VERIF, 'tools', 'fresh_assemble.py')
 _cache = {}
@@ -75,7 +75,7 @@ def pool(draw):
         p = draw(S.programs(PROFILE))
         # registers as xN / ABI alias / plain number, integers in three bases: the same operand TEXT then shows up in different
         # roles in different programs (state keyed by a spelling would leak between calls)
-        st_ = ir.Style(draw(st.integers(1, 2 ** 30)), kinds={'reg', 'intbase'}) if draw(st.booleans()) else ir.Style(0)
+        st_ = ir.Style(draw(st.integers(1, 2 ** 30)), kinds={'reg', 'intbase'}) if draw(st.integers(0, 3)) else ir.Style(0)
         lines = [it.render(st_) for it in p.items]
         if draw(st.integers(0, 3)) == 0:
             faults = [f for f in c15.FAULTS if '{far}' not in f[1] and '{label}' not in f[1] and f[0] not in ('noinclude',)]
